@@ -14,7 +14,18 @@ Packing (`Sqfs/Spec/PackSpec.lean`, `Sqfs/Model/PackCur.lean`), stateful:
   file <flags> <data-hex>                            → ok
   pack-run <fix|cur>                                 → blocks … frags … files …   (see `showOut`)
   effective <notail 0/1> <B> <size> <flags>          → <flags'>  (option handling of mkfs.c / tar2sqfs)
-  export <n> (<inum> <iref>)×n                       → <iref> …  (export table after these add_export_table_entry calls, last = root)
+  export <n> (<inum> <iref>)×n                       → <iref> …  (ideal export table `exportTable` after these calls, last = root)
+  exptbl <off> <n> (<inum> <iref>)×n                 → ok <start> <file-hex> | err <kind>
+        the export table as dir_writer.c builds and writes it (`Sqfs/Model/C17Export.lean`: array of capacity 512 that
+        doubles, 0xFF fill, root = last pair, `sqfs_write_table` into a file that already holds <off> bytes; the
+        metadata compressor is the `cmp` table): <start> = export_table_start, <file-hex> = the bytes appended
+  number <k> <tok>…                                  → <N> <root> <n|-> …
+        inode numbering of Sqfs/Model/Numbering.lean (`alloc_inode_num_dfs`, root last) for the tree whose root has the
+        k children described in pre-order by the tokens `f` (any non-directory inode), `h` (hard-link entry), `d<m>`
+        (directory followed by its m children); answer: inode count, then the numbers in the same pre-order (root first)
+  sorttree <fix|cur> <nf> <path-hex>×nf <nl> <line-hex>×nl <matchbits|->
+        `fstreeSortFiles` of Sqfs/Model/C17SortTree.lean on an fstree_t whose fs->files are these paths (split at '/');
+        same answer format as `sort`
 Monitor (the specification's read-back evaluated on a layout that the *implementation* produced), stateful:
   mon-begin <B> <base>                               → ok        (cmp table is shared with pack-begin's)
   mon-block <raw 0/1> <data-hex>                     → ok
@@ -28,6 +39,8 @@ import Sqfs.Model.Sort
 import Sqfs.Model.PackCur
 import Sqfs.Spec.PackSpec
 import Sqfs.Spec.Directives
+import Sqfs.Model.C17Export
+import Sqfs.Model.C17SortTree
 namespace Driver.C17
 open Sqfs Sqfs.Sort Sqfs.Pack
 
@@ -107,6 +120,48 @@ def opSort (terminate : Bool) (paths lines : List (List UInt8)) (bits : String) 
       match sortFiles terminate (tableMatcher tbl) lines paths with
       | .error (e, i) => s!"err {e.name} {i}"
       | .ok fs => "ok" ++ String.join (fs.map (fun f => s!" {toHexFast f.path}:{showInt f.priority}:{f.flags}"))
+
+/-- a canonical path string → its components -/
+def splitSlash (p : List UInt8) : List (List UInt8) :=
+  let r := p.foldl (fun (acc : List (List UInt8) × List UInt8) c =>
+    if c == 47 then (acc.1 ++ [acc.2], []) else (acc.1, acc.2 ++ [c])) ([], [])
+  r.1 ++ [r.2]
+
+def opSortTree (terminate : Bool) (paths lines : List (List UInt8)) (bits : String) : String :=
+  match decodeLines terminate 0 lines with
+  | .error (e, i) => s!"err {e.name} {i}"
+  | .ok ls =>
+    match buildTable paths ls (if bits = "-" then [] else bits.toList) with
+    | none => "bad-op"
+    | some tbl =>
+      let R : Sqfs.FsTree.Result := { tree := default, inodes := [], files := paths.map splitSlash }
+      match Sqfs.C17SortTree.fstreeSortFiles terminate (tableMatcher tbl) lines R with
+      | .error (e, i) => s!"err {e.name} {i}"
+      | .ok r =>
+        if r.fs.files.map Sqfs.FsTree.joinPath != r.attrs.map (·.path) then "err files-and-attrs-out-of-step"
+        else "ok" ++ String.join (r.attrs.map (fun f => s!" {toHexFast f.path}:{showInt f.priority}:{f.flags}"))
+
+/-- `k` sibling trees from the token list (pre-order, `d<m>` = directory with `m` children) -/
+partial def parseTrees : Nat → List String → Option (List Sqfs.Numbering.Tree × List String)
+  | 0, rest => some ([], rest)
+  | _ + 1, [] => none
+  | k + 1, tok :: rest =>
+    let one : Option (Sqfs.Numbering.Tree × List String) :=
+      if tok = "f" then some (.file, rest)
+      else if tok = "h" then some (.hlink, rest)
+      else if tok.startsWith "d" then
+        match (tok.drop 1).toNat? with
+        | some m => (parseTrees m rest).map (fun r => (Sqfs.Numbering.Tree.dir r.1, r.2))
+        | none => none
+      else none
+    match one with
+    | none => none
+    | some (t, rest') => (parseTrees k rest').map (fun r => (t :: r.1, r.2))
+
+partial def showNums : Sqfs.Numbering.NTree → List String
+  | .file n => [toString n]
+  | .hlink => ["-"]
+  | .dir n cs => toString n :: cs.flatMap showNums
 
 structure St where
   B : Nat := 0
@@ -226,6 +281,42 @@ def step (s : St) (line : String) : St × String :=
       if ps.length = n ∧ n > 0 ∧ ps.all (fun p => p.1 ≥ 1) then
         (s, " ".intercalate ((exportTable ps.dropLast (ps.getLast?.getD (1, 0))).map (fun r => toString r.toNat)))
       else (s, "bad-op")
+    | _, _ => (s, "bad-op")
+  | "exptbl" :: off :: n :: rest =>
+    match off.toNat?, n.toNat?, natsPairs rest with
+    | some off, some n, some ps =>
+      if ps.length = n ∧ n > 0 then
+        let cmp : Sqfs.MetaWriter.Codec := fun x => (s.table.find? (fun e => e.1 == x)).map (·.2)
+        let root := ps.getLast?.getD (1, 0)
+        match Sqfs.C17Export.exportRun cmp ps.dropLast root.1 root.2 with
+        | .error e => (s, "err " ++ e.name)
+        | .ok w =>
+          let f := Sqfs.C17Export.tableFile off w
+          (s, s!"ok {f.2} {toHexFast f.1}")
+      else (s, "bad-op")
+    | _, _, _ => (s, "bad-op")
+  | "number" :: k :: rest =>
+    match k.toNat? with
+    | some k =>
+      match parseTrees k rest with
+      | some (cs, []) =>
+        let r := Sqfs.Numbering.numberRoot cs
+        (s, " ".intercalate (toString r.2 :: showNums r.1))
+      | _ => (s, "bad-op")
+    | none => (s, "bad-op")
+  | "sorttree" :: m :: nf :: rest =>
+    match mode? m, nf.toNat? with
+    | some t, some nf =>
+      match allSome ((rest.take nf).map fromHexFast), (rest.drop nf) with
+      | some paths, nl :: rest2 =>
+        match nl.toNat? with
+        | some nl =>
+          match allSome ((rest2.take nl).map fromHexFast), rest2.drop nl with
+          | some lines, [bits] =>
+            if paths.length = nf ∧ lines.length = nl then (s, opSortTree t paths lines bits) else (s, "bad-op")
+          | _, _ => (s, "bad-op")
+        | none => (s, "bad-op")
+      | _, _ => (s, "bad-op")
     | _, _ => (s, "bad-op")
   | ["mon-begin", b, base] =>
     match b.toNat?, base.toNat? with
